@@ -135,6 +135,13 @@ def step (w : W) (toks : List String) : W × String :=
           | .ok b => "ok " ++ toHex b
           | r => showFail r)
     | _, _ => (w, "bad-op")
+  | ["ienchex", h, N] =>
+    match N.toInt? with
+    | some N =>
+      (w, match encodeIntApi (Int.ofNat ((parseHex h).foldl (fun a b => a * 256 + b.toNat) 0)) N with
+          | .ok b => "ok " ++ toHex b
+          | r => showFail r)
+    | none => (w, "bad-op")
   | ["idec", h, N] =>
     match N.toInt? with
     | some N =>
